@@ -44,6 +44,7 @@ macro "bridge_close" : tactic =>
 /-- the history-language counterpart of a protocol call (none: value-initialising count constructor, single-pass ranges,
     element access — calls the history languages do not have) -/
 def toMOp (s : Sys) : Op → Option (MOp Int)
+  | .new x a => some (.ctorVals x a [])
   | .newv x n v a => some (.ctorVals x a (List.replicate n v))
   | .newr x .fw a vs => some (.ctorVals x a vs)
   | .newg x a vs => some (.ctorVals x a vs)
@@ -79,6 +80,12 @@ def toMOp (s : Sys) : Op → Option (MOp Int)
   | .appm x y => some (.appendMove x y)
   | _ => none
   where _unused := s
+
+/-- default construction IS range construction from an empty range (same program on every world) -/
+theorem ctorDefault_eq_fill (cfg : Cfg) (c a : Nat) (ch : Bool) (w : World Int) :
+    ctorDefault c a w = ctorFill cfg c a ch ([] : List (Src Int)) w := by
+  unfold ctorDefault ctorFill setDefault
+  rfl
 
 /-- the program the driver runs for a protocol line IS the program the history theorems are about -/
 theorem bridge (ac : ApiCfg) (s : Sys) (op : Op) (m : MOp Int) (w0 : World Int) (hh : w0.hdr = s.w.hdr)
@@ -167,7 +174,11 @@ theorem bridge (ac : ApiCfg) (s : Sys) (op : Op) (m : MOp Int) (w0 : World Int) 
   | swp x y => injection h with h; subst h; simp only [opM, MOp.run]; bridge_close
   | appc x y => injection h with h; subst h; simp only [opM, MOp.run]; bridge_close
   | appm x y => injection h with h; subst h; simp only [opM, MOp.run]; bridge_close
-  | new x a => cases h
+  | new x a =>
+    injection h with h; subst h
+    simp only [opM, MOp.run, List.map_nil]
+    rw [forget_bind_pure, forget_unit]
+    exact ctorDefault_eq_fill ac.cfg x a true w0
   | newn x n a =>
     injection h with h; subst h
     simp only [opM, MOp.run, show Gen.ctorCountChecked = true from rfl]
@@ -235,13 +246,13 @@ theorem bridge_valid_on (s : Sys) (op : Op) (c : Nat) (sop : SOp Int) (h : toMOp
   | swp _ _ => injection h with h; cases h
   | appc _ _ => injection h with h; cases h
   | appm _ _ => injection h with h; cases h
-  | new _ _ => cases h
+  | new _ _ => injection h with h; cases h
   | newn _ _ _ => injection h with h; cases h
   | pbm x v => injection h with h; injection h with h1 h2; subst h1; subst h2; simp [Op.valid] at hv; exact ⟨hv, trivial⟩
   | «at» _ _ => cases h
   | get _ _ => cases h
 
-/-- non-vacuity: the bridge covers 33 of the protocol's call forms; two instances -/
+/-- non-vacuity: the bridge covers 34 of the protocol's call forms; two instances -/
 example : toMOp (initSys 2 3) (.insn 0 1 3 (.self 0)) = some (.on 0 (.insertNSelf 1 3 0)) ∧
           toMOp (initSys 2 3) (.appm 0 2) = some (.appendMove 0 2) := ⟨rfl, rfl⟩
 
